@@ -88,6 +88,12 @@ CHECKS = {
     text="Search, not proof: 0.4k/15k definitions per tier (1-4 periods over fixture and synthetic streams, start/duration on and off segment boundaries, periods longer than the source, track subsets), vod and live, about 35 fetches per case.",
     note=SHIMS + ". Own application instance per process; generated definitions are deleted after each case.",
     design_ref="DESIGN.md section 4, C12"),
+ "C14": dict(
+    engine="hypothesis",
+    technique="model-based: the schedule (start, interval, count, timescale, version, inband) is the reference model; emsg boxes collected from runs of consecutive served segments by the independent box reader and EventStream elements of the manifest are compared with it; SCTE-35 payloads decoded by an independent decoder with CRC-32/MPEG-2; library-level encode/parse/re-encode identity of generated BinarySignals cross-checked against the independent decoder",
+    text="Search, not proof: 20k/1.5M generated SCTE-35 signals (every command and descriptor class the library models, field values over their full bit widths) and 0.7k/30k event-delivery sessions (vod: all segments; live: up to 40 consecutive segments ending at the newest edge, crossing loop boundaries) per tier.",
+    note=SHIMS + ". vt/scte.py is self-tested against the binary examples of tests/test_scte35.py and the SCTE 35 sample section. Event indices beyond 32 bits are outside the domain (emsg id and splice_event_id are 32-bit fields).",
+    design_ref="DESIGN.md section 4, C14"),
 }
 
 _PENDING = "check under construction in this build round; not yet registered (see DESIGN.md section 9)"
